@@ -988,7 +988,7 @@ pub fn run_composite(c: &CompCase) -> Verdict {
     for i in 0..2 * nterms + 1 {
         let o = &c.operands[i % c.operands.len()];
         // dot products / products of many / sums want a common log_delta per side
-        let ld = if kind >= 6 { c.operands[i % 2].1 } else { o.1 };
+        let ld = if (6..=8).contains(&kind) { c.operands[i % 2].1 } else { o.1 };
         match fresh_reg(cx, &mut sx, o.0, ld, o.2, o.3, c.seed ^ (i as u64 * 0x9E37)) {
             Some(mut r) => {
                 let _ = md.ckks_compact_limbs(&mut r.ct);
@@ -1157,6 +1157,88 @@ pub fn run_composite(c: &CompCase) -> Verdict {
                 cl.push("terms>=2");
             }
         }
+        9..=11 => {
+            // sum of products, defined as: first product into dst, further products into a buffer shaped like dst and added,
+            // one normalisation at the end.  Reference: the same chain through the safe two-operand forms.
+            let terms: Vec<&Reg> = (0..nterms).map(|i| &regs[2 * i]).collect();
+            let others: Vec<&Reg> = (0..nterms).map(|i| &regs[2 * i + 1]).collect();
+            let ptld = (c.operands[0].1 as usize).clamp(8, p.ld_max);
+            let prec = CKKSMeta { log_delta: ptld, log_budget: (c.operands[0].2 as usize).clamp(3, 10) };
+            let rnxs: Vec<CKKSPlaintextVecRnx<f64>> = (0..nterms)
+                .map(|i| {
+                    let (pre, pim) = gen_slots(m, 0.9, c.seed ^ (0x77 + i as u64));
+                    let mut r = CKKSPlaintextVecRnx::<f64>::alloc(n).unwrap();
+                    cx.encoder.encode_reim(&mut r, &pre, &pim).unwrap();
+                    r
+                })
+                .collect();
+            let csts: Vec<CKKSPlaintextCstRnx<f64>> = (0..nterms)
+                .map(|i| {
+                    let (pre, pim) = gen_slots(2, 0.9, c.seed ^ (0x99 + i as u64));
+                    match (c.seed >> (2 * i)) % 3 {
+                        0 => CKKSPlaintextCstRnx::<f64>::new(Some(pre[0]), Some(pim[0])),
+                        1 => CKKSPlaintextCstRnx::<f64>::new(Some(pre[0]), None),
+                        _ => CKKSPlaintextCstRnx::<f64>::new(None, Some(pim[0])),
+                    }
+                })
+                .collect();
+            let ains: Vec<&CKKSCiphertext<Vec<u8>>> = terms.iter().map(|r| &r.ct).collect();
+            let bins: Vec<&CKKSCiphertext<Vec<u8>>> = others.iter().map(|r| &r.ct).collect();
+            let mut dst1 = alloc(c.dst_limbs);
+            let mut dst2 = alloc(c.dst_limbs);
+            let r1: anyhow::Result<()> = match kind {
+                9 => md.ckks_dot_product_pt_vec_rnx(&mut dst1, &ains, &rnxs.iter().collect::<Vec<_>>(), prec, sx.roomy()),
+                10 => md.ckks_dot_product_pt_const_rnx(&mut dst1, &ains, &csts.iter().collect::<Vec<_>>(), prec, sx.roomy()),
+                _ => md.ckks_dot_product_ct(&mut dst1, &ains, &bins, &cx.tsk, sx.roomy()),
+            };
+            let term = |i: usize, out: &mut CKKSCiphertext<Vec<u8>>, sx: &mut Sx| -> anyhow::Result<()> {
+                match kind {
+                    9 => md.ckks_mul_pt_vec_rnx_into(out, ains[i], &rnxs[i], prec, sx.roomy()),
+                    10 => md.ckks_mul_pt_const_rnx_into(out, ains[i], &csts[i], prec, sx.roomy()),
+                    _ => md.ckks_mul_into(out, ains[i], bins[i], &cx.tsk, sx.roomy()),
+                }
+            };
+            let mut r2 = term(0, &mut dst2, &mut sx);
+            for i in 1..nterms {
+                if r2.is_err() {
+                    break;
+                }
+                let mut tmp = alloc(c.dst_limbs);
+                r2 = term(i, &mut tmp, &mut sx);
+                if r2.is_ok() {
+                    r2 = md.ckks_add_assign(&mut dst2, &tmp, sx.roomy());
+                }
+            }
+            // kind 11 is only about the path for unequal log_delta inside one side (the uniform path is kind 7)
+            let uniform = terms.iter().all(|r| r.sh.ld == terms[0].sh.ld) && others.iter().all(|r| r.sh.ld == others[0].sh.ld);
+            if kind == 11 && (uniform || nterms < 2) {
+                return Verdict::pass(false, &[name, "skipped:uniform_log_delta"]);
+            }
+            if r1.is_ok() != r2.is_ok() {
+                return fail("result-differs-from-primitives", format!("{nterms} terms: the composite returned {:?}, the chain of products and in-place sums {:?}", r1.as_ref().map_err(|e| e.to_string()), r2.as_ref().map_err(|e| e.to_string())));
+            }
+            if r1.is_ok() {
+                if (dst1.log_delta(), dst1.log_budget()) != (dst2.log_delta(), dst2.log_budget()) {
+                    return fail("metadata-differs-from-primitives", format!("{nterms} terms: composite (log_delta, log_budget) = ({}, {}), chain of products and sums ({}, {})", dst1.log_delta(), dst1.log_budget(), dst2.log_delta(), dst2.log_budget()));
+                }
+                // same torus values up to the last-limb roundings of the intermediate normalisations
+                let mag: f64 = terms.iter().map(|r| r.sh.mag()).sum::<f64>().max(1.0) * 2.0;
+                if let (Some((re1, im1)), Some((re2, im2))) = (slots_of(cx, &mut sx, &dst1, mag), slots_of(cx, &mut sx, &dst2, mag)) {
+                    let tol = nterms as f64 * nf * (16.0 * (1.0 + hw) * p2(-(dst1.max_k().as_usize() as i64)) * p2(dst1.log_budget() as i64) + 8.0 * p2(-(dst1.log_delta() as i64)));
+                    for i in 0..m {
+                        let d = (re1[i] - re2[i]).hypot(im1[i] - im2[i]);
+                        if !(d <= tol) {
+                            return fail("differs-from-primitives", format!("slot {i}: composite decrypts to ({:.6e}, {:.6e}), the chain of products and sums to ({:.6e}, {:.6e}); |diff| = {d:.3e} > {tol:.3e}", re1[i], im1[i], re2[i], im2[i]));
+                        }
+                    }
+                    cl.push("values_checked");
+                }
+            }
+            cl.push(if r1.is_ok() { "ok" } else { "error_path" });
+            if nterms >= 2 {
+                cl.push("terms>=2");
+            }
+        }
         _ => {
             // product of n ciphertexts with a common log_delta: value and invariants
             let ins: Vec<&CKKSCiphertext<Vec<u8>>> = regs[..nterms].iter().map(|r| &r.ct).collect();
@@ -1209,4 +1291,4 @@ pub fn run_composite(c: &CompCase) -> Verdict {
     Verdict::pass(true, &cl)
 }
 
-pub const COMP_KINDS: [&str; 9] = ["ckks_mul_add_ct_into", "ckks_mul_sub_ct_into", "ckks_mul_add_pt_vec_rnx_into", "ckks_mul_sub_pt_vec_rnx_into", "ckks_mul_add_pt_const_rnx_into", "ckks_mul_sub_pt_const_rnx_into", "ckks_add_many", "ckks_dot_product_ct", "ckks_mul_many"];
+pub const COMP_KINDS: [&str; 12] = ["ckks_mul_add_ct_into", "ckks_mul_sub_ct_into", "ckks_mul_add_pt_vec_rnx_into", "ckks_mul_sub_pt_vec_rnx_into", "ckks_mul_add_pt_const_rnx_into", "ckks_mul_sub_pt_const_rnx_into", "ckks_add_many", "ckks_dot_product_ct", "ckks_mul_many", "ckks_dot_product_pt_vec_rnx", "ckks_dot_product_pt_const_rnx", "ckks_dot_product_ct(mixed_log_delta)"];
